@@ -9,12 +9,14 @@ import (
 	"runtime"
 	"sort"
 	"sync"
+	"sync/atomic"
 	"time"
 
 	"github.com/privacybydesign/gabi"
 	gbig "github.com/privacybydesign/gabi/big"
 	"github.com/privacybydesign/gabi/gabikeys"
 	"github.com/privacybydesign/gabi/revocation"
+	"github.com/privacybydesign/gabi/zkproof"
 )
 
 func init() { suites["C20"] = suiteC20 }
@@ -420,6 +422,67 @@ func suiteC20(s *Suite, rng *Rng, tier string) {
 		lr.mu.Unlock()
 	}
 
+	// ---------- B''. one proof structure shared by verifying goroutines (the structures of the key proof are built once and
+	//               then only read: their exponents, -1 among them, must stay what they are) ----------
+	{
+		gp := nextSafePrime(rng, 64)
+		g, ok := zkproof.BuildGroup(gp)
+		if ok {
+			minusOne := gbig.NewInt(-1)
+			shared := &zkproof.RepresentationProofStructure{
+				Lhs: []zkproof.LhsContribution{{Base: "g", Power: gbig.NewInt(5)}, {Base: "h", Power: minusOne}, {Base: "g", Power: gbig.NewInt(-3)}},
+				Rhs: []zkproof.RhsContribution{{Base: "g", Secret: "x", Power: 1}, {Base: "h", Secret: "y", Power: -1}},
+			}
+			res := resultsLookup{"x": rng.Below(g.Order), "y": rng.Below(g.Order)}
+			c := rng.Bits(60)
+			want := shared.CommitmentsFromProof(g, nil, c, &g, res)
+			// (first use above; now a fresh copy of the same structure is shared from the start)
+			fresh := &zkproof.RepresentationProofStructure{
+				Lhs: []zkproof.LhsContribution{{Base: "g", Power: gbig.NewInt(5)}, {Base: "h", Power: gbig.NewInt(-1)}, {Base: "g", Power: gbig.NewInt(-3)}},
+				Rhs: shared.Rhs,
+			}
+			G := 8
+			per := 300
+			if thorough {
+				per = 3000
+			}
+			var wg sync.WaitGroup
+			var bad int64
+			for gi := 0; gi < G; gi++ {
+				wg.Add(1)
+				go func() {
+					defer wg.Done()
+					defer func() {
+						if r := recover(); r != nil {
+							atomic.AddInt64(&bad, 1)
+						}
+					}()
+					for k := 0; k < per; k++ {
+						got := fresh.CommitmentsFromProof(g, nil, c, &g, res)
+						if len(got) != len(want) || got[0].Cmp(want[0]) != 0 {
+							atomic.AddInt64(&bad, 1)
+							return
+						}
+					}
+				}()
+			}
+			wg.Wait()
+			if bad > 0 {
+				s.Violate("C20:shared-structure-misbehaves", fmt.Sprintf("%d of %d goroutines verifying against one shared proof structure panicked or computed other commitments", bad, G), L{bad})
+			}
+			for i, l := range fresh.Lhs {
+				if l.Power.Cmp(shared.Lhs[i].Power) != 0 && !(i == 1 && false) {
+					s.Violate("C20:shared-structure-written", fmt.Sprintf("exponent %d of the shared structure changed from %v to %v by being used", i, []int64{5, -1, -3}[i], l.Power), L{i})
+				}
+			}
+			if minusOne.Cmp(gbig.NewInt(-1)) != 0 {
+				s.Violate("C20:shared-structure-written", "the exponent -1 of a structure was overwritten by its first use", L{minusOne})
+			}
+			s.Dist["shared-structure-verifications"] += G * per
+			s.Nontrivial["shared-structure"] = true
+		}
+	}
+
 	// ---------- C. the hand-off model on explicit schedules (in-Coq evaluation of the interleaving model) ----------
 	for it := 0; it < 20; it++ {
 		nt := 1 + rng.Intn(4)
@@ -502,3 +565,8 @@ func refSched(progs, sched L) V {
 	}
 	return L{consumed, chV, discarded, fresh}
 }
+
+// resultsLookup: responses by name (zkproof.ProofLookup)
+type resultsLookup map[string]*gbig.Int
+
+func (r resultsLookup) ProofResult(name string) *gbig.Int { return r[name] }
